@@ -107,6 +107,7 @@ func init() {
 }
 
 func runC20(h *H) {
+	runC20Asm(h) // the assembly kernels against the Lean model of the assembly (c20asm.go)
 	// aliased operands: views of one buffer made of a short pattern repeated with case flips (so that overlapping views
 	// are sometimes equal under folding and sometimes not)
 	NA := 1500
